@@ -74,9 +74,6 @@ theorem isoywd_back (Y : Int) (o : Nat) (h : VD Y o) (w : Int)
     subst e1 e2
     rw [hd']
 
-/-- the ISO combination is present: ISO year group with a year, ISO week and weekday -/
-def UsesIso (p : Parsed) : Prop :=
-  GroupHasYear p.isoyear p.isoyear_mod_100 ∧ p.isoweek ≠ none ∧ p.weekday ≠ none
 
 theorem date_complete_full (p : Parsed) (hp : InType p) (Y : Int) (o : Nat) (hvd : VD Y o)
     (hag : DateAgrees p Y o)
